@@ -1,2 +1,38 @@
-(* C03: statements only; theorems are added as the model of the anchored mechanism is proved *)
-From GGRS Require Import Base.
+(* C03 — input status is truthful and confirmed inputs are final (queue level).
+   Statements only. *)
+From GGRS Require Import Base Consts Queue QueueProofs QueueTheorems.
+Open Scope Z_scope.
+
+(* For every sequence of arrivals of a remote player's inputs, reads (non-decreasing between two
+   resets, never with a misprediction pending, never below the tail - what the session issues),
+   resets and discards: no assert of the queue fires, and every input handed out is truthful:
+   Confirmed  => the frame had been received and the value is the real input of that frame;
+   Predicted  => the frame lies beyond everything received and the value is the predictor applied to
+                 the newest received input (the default input 0 if nothing was received yet).
+   Stated for any predictor that is idempotent and maps the default input to itself; instantiated
+   for the two shipped predictors. *)
+Theorem C03_queue_truthful : forall (predict : Z -> Z),
+  (forall x, predict (predict x) = predict x) -> predict 0 = 0 ->
+  forall (ops : list rop) (s : rstate),
+  rrun predict rs_init ops <> Panic /\
+  (rrun predict rs_init ops = Ok s -> Forall (entry_ok predict) (rs_log s)).
+Proof. exact remote_queue_truthful. Qed.
+
+Theorem C03_queue_truthful_repeat_last : forall (ops : list rop) (s : rstate),
+  rrun (fun x => x) rs_init ops <> Panic /\
+  (rrun (fun x => x) rs_init ops = Ok s -> Forall (entry_ok (fun x => x)) (rs_log s)).
+Proof. exact (remote_queue_truthful (fun x => x) (fun x => eq_refl) eq_refl). Qed.
+
+Theorem C03_queue_truthful_default : forall (ops : list rop) (s : rstate),
+  rrun (fun _ => 0) rs_init ops <> Panic /\
+  (rrun (fun _ => 0) rs_init ops = Ok s -> Forall (entry_ok (fun _ => 0)) (rs_log s)).
+Proof. exact (remote_queue_truthful (fun _ => 0) (fun x => eq_refl) eq_refl). Qed.
+
+(* non-vacuity: prediction, matching arrivals, a misprediction, rollback (reset) and re-read *)
+Definition c03_demo_ops : list rop :=
+  [RAdd 4; RInput 0; RInput 1; RInput 2; RAdd 4; RAdd 4; RInput 3; RAdd 9; RReset; RInput 3; RDiscard 1; RInput 4].
+Example C03_demo :
+  exists s, rrun (fun x => x) rs_init c03_demo_ops = Ok s /\
+            map (fun e => let '(f, v, st, _) := e in (f, v, st)) (rs_log s) =
+            [(0, 4, Confirmed); (1, 4, Predicted); (2, 4, Predicted); (3, 4, Predicted); (3, 9, Confirmed); (4, 9, Predicted)].
+Proof. eexists. split; vm_compute; reflexivity. Qed.
